@@ -968,6 +968,10 @@ func parseExeHeader(src []byte, magic uint, arch, codeStart, codeEnd *int) bool 
 			}
 
 			for cmd < nbCmds {
+				if pos < 0 || pos > count-8 {
+					return false
+				}
+
 				ldCmd := int(binary.LittleEndian.Uint32(src[pos:]))
 				szCmd := int(binary.LittleEndian.Uint32(src[pos+4:]))
 				szSegHdr := 0x38
